@@ -1,5 +1,6 @@
 import UtilModel.CContainer.Props
 import UtilModel.CContainer.Transfer
+import UtilModel.CContainer.WProps
 open UtilModel UtilModel.CContainer
 #print axioms UtilModel.accepts_sound
 #print axioms UtilModel.monitor_of_simulation
@@ -20,3 +21,8 @@ open UtilModel UtilModel.CContainer
 #print axioms UtilModel.quotok_ccontainer
 #print axioms UtilModel.reject_sound_ccontainer
 #print axioms UtilModel.rejectH_sound_quot
+#print axioms UtilModel.CContainer.wrun_core
+#print axioms UtilModel.CContainer.C15_core_obs_w
+#print axioms UtilModel.CContainer.C15_watch_obs
+#print axioms UtilModel.CContainer.C15_obs_w
+#print axioms UtilModel.C15W_accepted
